@@ -242,8 +242,9 @@ func (t *Tree) errorf(format string, args ...interface{}) {
 		byteNum++ // After the newline.
 		byteNum = pos - byteNum
 	}
-	format = fmt.Sprintf("yang: %s:%d:%d: %s", t.ParseName, t.lex.lineNumber(), byteNum, format)
-	panic(fmt.Errorf(format, args...))
+	// (the name of the input is not part of the format: it may hold a '%')
+	panic(fmt.Errorf("yang: %s:%d:%d: %s", t.ParseName, t.lex.lineNumber(), byteNum,
+		fmt.Sprintf(format, args...)))
 }
 
 // error terminates processing.
